@@ -179,6 +179,43 @@ def run(run, tier, seed):
                         run.evaluations += 1
                         if t > 1 and ns >= 10:
                             run.nontriv([cmd, inp, t, ns, rep, " ".join(mk(t, "OUT")[-3:])])
+        # build with --proportion-reads (every second record): 32 two-record samples - enough for the split to go two levels
+        # deep with 4 and more threads; the option has to reach every leaf of the recursion
+        ns = 32
+        anc = gen.rand_seq(rng, 300)
+        flp = os.path.join(tmp, "flp.txt")
+        with open(flp, "w") as f:
+            for i in range(ns):
+                s = list(anc)
+                for p in range(len(s)):
+                    if rng.random() < 0.01:
+                        s[p] = rng.choice("ACGT")
+                s = "".join(s)
+                fa = os.path.join(tmp, "p_%d.fa" % i)
+                vlib.write_fasta(fa, [s[:150], s[150:]])
+                f.write("p_%d\t%s\n" % (i, fa))
+        ep += 1
+        base = None
+        for t in threads_list:
+            out = os.path.join(tmp, "pout_%d" % t)
+            args = ["build", "-o", out, "-k", "17", "-f", flp, "--proportion-reads", "0.5", "--threads", str(t)]
+            rc, so, se, hook = run_cmd(args, os.path.join(tmp, "trp.ndjson"))
+            val = None
+            if rc == 0:
+                tb = vlib.parse_nk(vlib.ska_cli(["nk", "--full-info", out + ".skf"])[1].decode())
+                val = [tb["names"], tb["rows"]]
+            if t == 1:
+                base = val
+                if rc != 0:
+                    raise vlib.ToolError("single-threaded build --proportion-reads failed: %s" % se.decode(errors="replace")[-200:])
+            events.append({"ev": "run", "ep": ep, "cmd": "build", "input": "seqs", "threads": t, "rep": 0, "nsamples": ns, "rc": rc,
+                           "hook": [{kk: h[kk] for kk in h if kk != "pid"} for h in hook],
+                           "same_as_t1": val is not None and val == base, "panic": "",
+                           "args": "build -k 17 -f LIST --proportion-reads 0.5 --threads %d" % t,
+                           "err": "" if rc == 0 else se.decode(errors="replace")[-300:]})
+            run.evaluations += 1
+            if t > 1:
+                run.nontriv(["build-proportion", t])
         # build from paired FASTQ with --min-count auto: the coverage model runs before the parallel build
         from props.c20 import simulate_reads
         from props.c12 import write_fastq
